@@ -5,6 +5,8 @@ package main
 import (
 	"bytes"
 	"fmt"
+	"github.com/ddddddO/gtree/verifmc/mctx"
+	"sort"
 	"strings"
 
 	"github.com/ddddddO/gtree"
@@ -30,6 +32,9 @@ type c13Thread struct {
 	script []tstep
 	got    []string
 	want   []string
+	// shared: option values that BOTH threads pass to their calls (options are the caller's values: building them
+	// once and using them for many calls, from any goroutine, is ordinary use)
+	shared []gtree.Option
 }
 
 func (t *c13Thread) run() {
@@ -86,6 +91,16 @@ func (t *c13Thread) run() {
 			var buf bytes.Buffer
 			err := gtree.OutputFromRoot(&buf, real[0], gtree.WithEncodeJSON())
 			obs(fmt.Sprintf("%d bytes %v", buf.Len(), err), fmt.Sprintf("%d bytes <nil>", len(jsonOf(model.MergeNode(mnodes[0])))+1))
+		case "S":
+			// OutputFromMarkdown with the shared option values (the massive option among them: roots may come in any order)
+			var buf bytes.Buffer
+			err := gtree.OutputFromMarkdown(&buf, strings.NewReader(s.Doc), t.shared...)
+			sp := model.ParseSpec(s.Doc)
+			obs(fmt.Sprintf("%q %v", sortBlocks(buf.String()), err), fmt.Sprintf("%q <nil>", sortBlocks(model.Render(model.Merge(sp.Forest), model.DefaultFmt))))
+		case "R":
+			var buf bytes.Buffer
+			err := gtree.OutputFromRoot(&buf, real[0], t.shared...)
+			obs(fmt.Sprintf("%q %v", buf.String(), err), fmt.Sprintf("%q <nil>", model.RenderRoot(model.MergeNode(mnodes[0]), model.DefaultFmt)))
 		case "M":
 			var buf bytes.Buffer
 			err := gtree.OutputFromMarkdown(&buf, strings.NewReader(s.Doc))
@@ -114,6 +129,23 @@ func (t *c13Thread) run() {
 			obs(fmt.Sprintf("%q %v", rows, err), fmt.Sprintf("%q <nil>", wr))
 		}
 	}
+}
+
+// sortBlocks: the text output as a sorted list of per-root blocks.
+func sortBlocks(out string) string {
+	var blocks []string
+	for _, l := range strings.SplitAfter(out, "\n") {
+		if l == "" {
+			continue
+		}
+		if len(blocks) > 0 && (strings.HasPrefix(l, "├") || strings.HasPrefix(l, "└") || strings.HasPrefix(l, "│") || strings.HasPrefix(l, " ")) {
+			blocks[len(blocks)-1] += l
+		} else {
+			blocks = append(blocks, l)
+		}
+	}
+	sort.Strings(blocks)
+	return strings.Join(blocks, "")
 }
 
 func enumSpell(n *model.Node) string {
@@ -210,6 +242,30 @@ func init() {
 			{"dry-spread", "md-dry"}, {"dry-spread", "dry-spread"}, {"dry-spread", "build-out"},
 		}
 		var out []*Scenario
+		// two threads that pass the SAME option values to their calls
+		sharedSets := map[string]func() []gtree.Option{
+			"massive-nil":     func() []gtree.Option { return []gtree.Option{gtree.WithMassive(nil)} },
+			"massive-ctx":     func() []gtree.Option { return []gtree.Option{gtree.WithMassive(mctx.Background())} },
+			"branches":        func() []gtree.Option { return sut.FmtOpts(model.DefaultFmt) },
+			"nil-and-massive": func() []gtree.Option { return []gtree.Option{nil, gtree.WithMassive(nil), nil} },
+		}
+		for sn, mk := range sharedSets {
+			for _, sc := range [][2][]tstep{
+				{{M("S", "- x\n  - y\n- z\n")}, {M("S", "- p\n- q\n  - r\n")}},
+				{{N("r"), A(0, "a"), O("R")}, {M("S", "- x\n  - y\n")}},
+				{{N("r"), A(0, "a"), O("R")}, {N("s"), A(0, "b"), A(0, "c"), O("R")}},
+			} {
+				sc, mk := sc, mk
+				name := fmt.Sprintf("c13/shared-options/%s/%s||%s", sn, sc[0][len(sc[0])-1].K, sc[1][len(sc[1])-1].K)
+				out = append(out, &Scenario{
+					Name: name, Prop: "C13", Bound: 1, Workers: w1, Policies: []int{0, 1, 2}, DivergenceIsViolation: "C13|state-survives-between-independent-calls",
+					New: func() Exec {
+						sh := mk()
+						return &c13Exec{a: &c13Thread{script: sc[0], shared: sh}, b: &c13Thread{script: sc[1], shared: sh}, name: name}
+					},
+				})
+			}
+		}
 		for _, p := range pairs {
 			p := p
 			name := "c13/" + p[0] + "||" + p[1]
